@@ -325,6 +325,11 @@ func syncKinds(st ast.Stmt) []string {
 						kinds = append(kinds, "atomic")
 					} else if k, ok := lockNames[fn.Sel.Name]; ok {
 						kinds = append(kinds, k)
+					} else if inner, ok := fn.X.(*ast.SelectorExpr); ok && inner.Sel.Name == "nextConn" {
+						// a call into the wrapped connection of the context wrappers (Read, Write,
+						// SetReadDeadline, ...): the point where "the watcher has already come and
+						// gone" or "the deadline is set after the call began" is decided
+						kinds = append(kinds, "wrapped")
 					}
 				}
 			}
